@@ -80,11 +80,21 @@ def run(ck, replay=None):
             crash = 'case `%s` aborts: %s' % (lines[len(out)], ox[-300:].replace('\n', ' '))
         ck.oblige('harness ran', rc == 0 and len(out) == len(lines), crash or 'rc=%s %d/%d' % (rc, len(out), len(lines)))
         badp = []; dist = {}
+        f9 = [f for f in load_known().get('findings', []) if f.get('property') == 'C17' and f.get('id') == 'F9']
+        w9 = {'ok': False}
+        if f9:
+            rcw, ow = run_lines(exe, [f9[0]['witness']])
+            w9['ok'] = bool(ow) and ow[0].startswith('throw other TridiagEigen')
         if crash:
             badp.append((lines[len(out)], 'the process aborts: ' + crash[-200:]))
         for l, (n, k), o_ in zip(lines, meta, out):
             if o_.startswith('throw'):
-                badp.append((l, 'unexpected exception: ' + o_[:100])); ck.count(l, False); continue
+                ck.count(l, False)
+                if f9 and w9['ok'] and o_.startswith('throw other TridiagEigen: eigen decomposition failed'):
+                    m9 = 'F9 LOBPCG: failure of the inner Rayleigh-Ritz eigen-solver escapes compute() as std::runtime_error instead of a status (witness: %s)' % f9[0]['witness']
+                    if m9 not in ck.known_hits: ck.known_hits.append(m9)
+                    continue
+                badp.append((l, 'unexpected exception: ' + o_[:100])); continue
             try:
                 d = parse(o_)
             except Exception:
